@@ -4,7 +4,7 @@
 set -u
 W=/tmp/confirm
 cd $W || exit 2
-git checkout -q -- . 
+git checkout -q -- .; git checkout -q --detach $(git -C /repo rev-parse HEAD)
 if [ "$1" = "--repo-diff" ]; then git -C /repo diff > /tmp/confirm_patch.diff; P=/tmp/confirm_patch.diff; else P="$1"; fi
 git apply "$P" || { echo "patch does not apply"; exit 2; }
 nice ninja -C _build -j${JOBS:-12} > /tmp/confirm_ninja.log 2>&1 || { echo "BUILD-FAIL"; tail -20 /tmp/confirm_ninja.log; git checkout -q -- .; exit 1; }
